@@ -4,6 +4,8 @@ import (
 	"fmt"
 	"os"
 	"runtime/pprof"
+
+	"golang.org/x/tools/go/ssa"
 	"sort"
 )
 
@@ -38,6 +40,29 @@ func main() {
 		}
 		res := Explore(ld.Prog, j)
 		printResult(j.ID, res)
+	case "closures":
+		ld, err := loadRepo([]string{os.Args[2]})
+		if err != nil {
+			fmt.Fprintln(os.Stderr, "load:", err)
+			os.Exit(2)
+		}
+		parent := findPkgFunc(ld.Prog, os.Args[2], os.Args[3])
+		var fns []*ssa.Function
+		allNested(parent, &fns)
+		names := map[*ssa.Function][]string{}
+		for _, f := range fns {
+			for _, b := range f.Blocks {
+				for _, ins := range b.Instrs {
+					if mc, ok := ins.(*ssa.MakeClosure); ok {
+						names[mc.Fn.(*ssa.Function)] = closureNames(mc)
+					}
+				}
+			}
+		}
+		for _, f := range fns {
+			pos := ld.Prog.Fset.Position(f.Pos())
+			fmt.Printf("%s line %d names=%v params=%d free=%v\n", f.Name(), pos.Line, names[f], len(f.Params), FreeVarNames(f))
+		}
 	case "checkjob":
 		p := registry[os.Args[2]]
 		ld, err := loadRepo(p.PkgDirs)
